@@ -209,20 +209,21 @@ struct Alpha {
 fn alphabets(tier: Tier) -> Alpha {
     match tier {
         Tier::Thorough => Alpha {
+            as_of_s: vec![-2_100_000_000, -1_700_000_000, -86_400, -1, 0, 1, 2, 1000, 4999, 5000, 86_400, 1_000_000, 1_700_000_000, 2_100_000_000],
+            as_of_ns: vec![0, 1, 2, 500, 999, 1000, 1001, 999_999, 1_000_000, 4_000_000, 123_456_789, 500_000_000, 999_000_000, 999_999_000, 999_999_998, 999_999_999],
+            v_kinds: vec![0, 1, 2],
+            bounds: vec![0, 1, 2, 999, 1000, 10_000, 1_000_000, 77_000_001, 999_999_999, 1_000_000_000, 1 << 31, (1 << 31) + 1, 1 << 32, 1 << 40, 1 << 53, 1 << 59, (1 << 60) - 1],
+            drifts: vec![0, 1, 2, 7, 10, 100, 999, 1000, 9_999, 50_000, 65_535, 65_536, 500_000, 1_000_000, 999_999_999, 1_000_000_000, 2_000_000_000, (1 << 31) - 1, 1 << 31, u32::MAX],
+            reals: vec![ts_ns(1_700_000_000, 0), ts_ns(1_700_000_000, 999_999_999), ts_ns(-1_000_000, 5), ts_ns(0, 0), ts_ns(2_100_000_000, 123_456_789)],
+        },
+        // (what used to be the thorough alphabet: a quick run takes a few seconds)
+        Tier::Quick => Alpha {
             as_of_s: vec![-2_100_000_000, -86_400, -1, 0, 1, 1000, 5000, 1_700_000_000, 2_100_000_000],
             as_of_ns: vec![0, 1, 999, 1000, 1001, 4_000_000, 500_000_000, 999_999_000, 999_999_999],
             v_kinds: vec![0, 1, 2],
             bounds: vec![0, 1, 999, 10_000, 77_000_001, 999_999_999, 1_000_000_000, 1 << 40, 1 << 53, (1 << 60) - 1],
             drifts: vec![0, 1, 7, 10, 999, 1000, 50_000, 500_000, 1_000_000, 999_999_999, 1_000_000_000, 2_000_000_000, u32::MAX],
-            reals: vec![ts_ns(1_700_000_000, 0), ts_ns(1_700_000_000, 999_999_999), ts_ns(-1_000_000, 5), ts_ns(0, 0), ts_ns(2_100_000_000, 123_456_789)],
-        },
-        Tier::Quick => Alpha {
-            as_of_s: vec![-2_100_000_000, -1, 0, 1000, 2_100_000_000],
-            as_of_ns: vec![0, 999, 1000, 500_000_000, 999_999_999],
-            v_kinds: vec![0, 2],
-            bounds: vec![0, 10_000, 77_000_001, (1 << 60) - 1],
-            drifts: vec![0, 1, 1000, 50_000, 999_999_999, 1_000_000_000, u32::MAX],
-            reals: vec![ts_ns(1_700_000_000, 999_999_999), ts_ns(-1_000_000, 5), ts_ns(1_700_000_000, 0), ts_ns(0, 500_000_000)],
+            reals: vec![ts_ns(1_700_000_000, 0), ts_ns(1_700_000_000, 999_999_999), ts_ns(-1_000_000, 5), ts_ns(0, 0)],
         },
     }
 }
@@ -241,7 +242,7 @@ fn ages_tier(v_ns: i128, blur: i128, tier: Tier) -> Vec<i128> {
     if tier == Tier::Thorough {
         // dense windows around every comparison point of the code, and a geometric sweep of ages
         for centre in [-blur, 0, 5 * S, v_ns] {
-            for d in -40..=40i128 {
+            for d in -250..=250i128 {
                 a.push(centre + d);
             }
         }
